@@ -159,7 +159,11 @@ def _tab_probes(fam, t0):
         names = [n for n in t0.column_names() if n is not None]
         keys = [("a",), ("b",), ("a", "b"), ("zz",)] + ([tuple(names)] if names else [])
         return [(lambda t, k=k: t[k]) for k in keys] + [lambda t: t[0:1], lambda t: t[[True] * len(t)],
-                                                         lambda t: t["a"], lambda t: t["b"]]
+                                                         lambda t: t["a"], lambda t: t["b"],
+                                                         # other structural derivations: they answer for the CURRENT cells and names and
+                                                         # leave the table's own bookkeeping (accessor map, memos) as it was
+                                                         lambda t: t.T.T, lambda t: t.T, lambda t: t >> {"zz9": [7] * len(t)},
+                                                         lambda t: sorted(set(dir(t)) - set(dir(Table()))), lambda t: t.T.T]
     if fam == "iter":
         return [lambda t: [[list(a), list(b)] for a in t for b in t], lambda t: [list(t[i]) for i in range(len(t))],
                 lambda t: [list(r) for r in t], lambda t: len(t), lambda t: t.shape]
